@@ -12,6 +12,7 @@
 static int valueConvert(MPT_INTERFACE(convertable) *conv, MPT_TYPE(type) type, void *ptr)
 {
 	const MPT_STRUCT(value) *val = *((void **) (conv + 1));
+	int ret;
 	
 	if (!type) {
 		static const uint8_t fmt[] = { MPT_ENUM(TypeValue), 0 };
@@ -25,7 +26,11 @@ static int valueConvert(MPT_INTERFACE(convertable) *conv, MPT_TYPE(type) type, v
 		}
 		return type;
 	}
-	return mpt_value_convert(val, type, ptr);
+	/* zero means 'no value' to property setters: report the source type for a converted value */
+	if ((ret = mpt_value_convert(val, type, ptr)) < 0) {
+		return ret;
+	}
+	return val->_type;
 }
 
 /*!
